@@ -4,6 +4,10 @@ import (
 	"encoding/json"
 	"fmt"
 	"math"
+	"os"
+	"os/exec"
+	"runtime/debug"
+	"strings"
 
 	R "github.com/Trisia/randomness"
 
@@ -343,4 +347,141 @@ func famWorks(seed uint64, fams []string, lengths []int, reps int, specs func(n 
 		}
 	}
 	return out
+}
+
+// ---- the library in a 32-bit process on sequences of tens of megabits ----
+//
+// Products such as 95*n or n*m stay inside a 64-bit int for every admissible n but leave a 32-bit one
+// from n ~ 2*10^7; the 32-bit subrun of the quick workload never gets there. Here the 32-bit build of the
+// harness (child process) only runs the library; the reference is computed in this (64-bit) process.
+
+type big386Req struct {
+	Seq   gen.Seq `json:"seq"`
+	Specs []Spec  `json:"specs"`
+}
+
+type big386Line struct {
+	Spec  Spec      `json:"spec"`
+	Got   []float64 `json:"got"`
+	Nan   []bool    `json:"nan"`
+	Panic string    `json:"panic,omitempty"`
+}
+
+func init() {
+	childKinds["seqlib"] = func(args []string) int {
+		var rq big386Req
+		if err := json.NewDecoder(os.Stdin).Decode(&rq); err != nil {
+			fmt.Println("seqlib: bad request:", err)
+			return 2
+		}
+		bits := rq.Seq.Bits()
+		bools := gen.Bools(bits)
+		var bytes []byte
+		if len(bits)%8 == 0 {
+			bytes = gen.Pack(bits)
+		}
+		bits = nil
+		for _, s := range rq.Specs {
+			var ln big386Line
+			ln.Spec = s
+			var got []float64
+			if p, msg := guard(func() { got = libCall(s, bools, bytes) }); p {
+				ln.Panic = msg
+			}
+			for _, v := range got { // JSON has no NaN/Inf
+				if math.IsNaN(v) || math.IsInf(v, 0) {
+					ln.Nan = append(ln.Nan, true)
+					ln.Got = append(ln.Got, 0)
+				} else {
+					ln.Nan = append(ln.Nan, false)
+					ln.Got = append(ln.Got, v)
+				}
+			}
+			b, _ := json.Marshal(ln)
+			fmt.Println("SEQLIB " + string(b))
+			debug.FreeOSMemory()
+		}
+		return 0
+	}
+}
+
+// runBig386 evaluates works with the library in the 32-bit build (one child per work) against the reference here.
+func runBig386(c *ev.Ctx, works []seqWork) {
+	bin := os.Getenv("VERIF_BIN_386")
+	if bin == "" || c.Lite() || os.Getenv("VERIF_SUBRUN") != "" {
+		c.Note("big_32bit_cases", "skipped (no 32-bit build of the harness, or a subrun)")
+		return
+	}
+	parallelN(4, len(works), func(i int) {
+		w := works[i]
+		rq, _ := json.Marshal(big386Req{w.Seq, w.Specs})
+		cmd := exec.Command(bin, "child", "seqlib")
+		cmd.Stdin = strings.NewReader(string(rq))
+		out, err := cmd.CombinedOutput()
+		lines := map[string]big386Line{}
+		for _, l := range strings.Split(string(out), "\n") {
+			if strings.HasPrefix(l, "SEQLIB ") {
+				var ln big386Line
+				if json.Unmarshal([]byte(l[7:]), &ln) == nil {
+					lines[ln.Spec.String()] = ln
+				}
+			}
+		}
+		bits := w.Seq.Bits()
+		for _, s := range w.Specs {
+			key := fmt.Sprintf("32bit:%s:%s", s.String(), w.Seq.String())
+			ln, ok := lines[s.String()]
+			c.Eval(ev.HashStr(key), true)
+			c.Count("calls_in_32_bit_process_"+s.T, 1)
+			if !ok {
+				// the child died before answering this spec: out of memory is a limit of the platform, a Go
+				// panic/fatal error of the library is not
+				tail := clipS(string(out), 1500)
+				if strings.Contains(string(out), "out of memory") || strings.Contains(string(out), "cannot allocate") {
+					c.Count("32_bit_cases_out_of_memory", 1)
+					continue
+				}
+				c.Violation(key+":died", fmt.Sprintf("32-bit process died without a result (%v): %s", err, tail), "seqtest386", SeqCase{w.Seq, s})
+				continue
+			}
+			if ln.Panic != "" {
+				if strings.Contains(ln.Panic, "out of memory") {
+					c.Count("32_bit_cases_out_of_memory", 1)
+					continue
+				}
+				c.Violation(key+":panic", "in a 32-bit process: "+ln.Panic, "seqtest386", SeqCase{w.Seq, s})
+				continue
+			}
+			got := append([]float64(nil), ln.Got...)
+			for k := range got {
+				if k < len(ln.Nan) && ln.Nan[k] {
+					got[k] = math.NaN()
+				}
+			}
+			want := refCall(s, oracle.Bits(bits))
+			worst := 0.0
+			if s.T == "dft" {
+				worst = math.Inf(1)
+				for k := 0; k+1 < len(want); k += 2 {
+					if d := math.Max(diff(got[0], want[k]), diff(got[1], want[k+1])); d < worst {
+						worst = d
+					}
+				}
+			} else {
+				for k := range want {
+					if k >= len(got) {
+						worst = math.Inf(1)
+					} else if d := diff(got[k], want[k]); d > worst {
+						worst = d
+					}
+				}
+			}
+			if !math.IsInf(worst, 1) {
+				c.Max("worst_abs_diff_32bit_"+s.T, worst)
+			}
+			if worst > tolPQ {
+				c.Violation(key, fmt.Sprintf("in a 32-bit process (GOARCH=386): library %v reference %v (|diff| %.3g > 1e-8)", got, want, worst), "seqtest386", SeqCase{w.Seq, s})
+			}
+		}
+	})
 }
